@@ -679,3 +679,186 @@ theorem claims_NP (v : Value) : NP (ClaimsSet.fromValue v) := by
   | _ => simp [ClaimsSet.fromValue, typeError] at h
 
 end Coset
+
+namespace Coset
+
+theorem party_NP (v : Value) : NP (PartyInfo.fromValue v) := by
+  intro p h
+  cases v with
+  | array a =>
+    simp only [PartyInfo.fromValue, tryAsArray, Gen.PartyInfo_arityBad] at h
+    by_cases hl : a.length = 3
+    · obtain ⟨x0, x1, x2, rfl⟩ := list_len3 a hl
+      simp only [List.length_cons, List.length_nil, bne_self_eq_false, Bool.false_eq_true, if_false, Gen.PartyInfo_removes, List.getD_cons_zero,
+        List.getD_cons_succ, vremove, List.getElem?_cons_succ, List.getElem?_cons_zero, List.eraseIdx_cons_succ, List.eraseIdx_cons_zero] at h
+      cases ho : nullOrBytes x2 with
+      | ok other =>
+        simp only [ho] at h
+        have hn : ∀ q, (match x1 with
+                 | .null => Res.ok (none : Option Nonce)
+                 | .bytes b => .ok (some (.bytes b))
+                 | .int u => match narrowI64 u with
+                   | .ok n => .ok (some (.integer n))
+                   | .err e => .err e
+                   | .panic p => .panic p
+                 | _ => typeError) ≠ .panic q := by
+          intro q hq
+          cases x1 <;> simp [typeError] at hq
+          rename_i u
+          cases hu : narrowI64 u with
+          | ok n => simp [hu] at hq
+          | err e => simp [hu] at hq
+          | panic r => exact narrowI64_NP u r hu
+        split at h
+        · rename_i nonce hnon
+          cases hi : nullOrBytes x0 with
+          | ok ident => simp [hi] at h
+          | err e => simp [hi] at h
+          | panic q => exact nullOrBytes_NP x0 q hi
+        · simp at h
+        · rename_i q hq; exact hn q hq
+      | err e => simp [ho] at h
+      | panic q => exact nullOrBytes_NP x2 q ho
+    · have : (a.length != 3) = true := by simpa using hl
+      simp [this] at h
+  | _ => simp [PartyInfo.fromValue, tryAsArray, typeError] at h
+
+end Coset
+
+namespace Coset
+
+theorem tryAsInteger_NP (v : Value) : NP (tryAsInteger v) := by intro p h; cases v <;> simp [tryAsInteger, typeError] at h
+
+theorem supp_NP (v : Value) : NP (SuppPubInfo.fromValue v) := by
+  intro p h
+  have tail : ∀ (x0 x1 : Value) (o : Option Bytes), NP (match vremove [x0, x1] 1 with
+      | .ok (y1, a) =>
+        match phFromBstr y1 with
+        | .ok prot =>
+          match vremove a 0 with
+          | .ok (y0, _) =>
+            match tryAsInteger y0 with
+            | .ok n =>
+              match narrowU64 n with
+              | .ok len => Res.ok (⟨len, prot, o⟩ : SuppPubInfo)
+              | .err e => .err e
+              | .panic p => .panic p
+            | .err e => .err e
+            | .panic p => .panic p
+          | .err e => .err e
+          | .panic p => .panic p
+        | .err e => .err e
+        | .panic p => .panic p
+      | .err e => .err e
+      | .panic p => .panic p) := by
+    intro x0 x1 o q hq
+    simp only [vremove, List.getElem?_cons_succ, List.getElem?_cons_zero, List.eraseIdx_cons_succ, List.eraseIdx_cons_zero] at hq
+    cases hp : phFromBstr x1 with
+    | ok prot =>
+      simp only [hp] at hq
+      cases hi : tryAsInteger x0 with
+      | ok n =>
+        simp only [hi] at hq
+        cases hn : narrowU64 n with
+        | ok len => simp [hn] at hq
+        | err e => simp [hn] at hq
+        | panic r => exact narrowU64_NP n r hn
+      | err e => simp [hi] at hq
+      | panic r => exact tryAsInteger_NP x0 r hi
+    | err e => simp [hp] at hq
+    | panic r => exact phFromBstr_NP x1 r hp
+  cases v with
+  | array a =>
+    simp only [SuppPubInfo.fromValue, tryAsArray, Gen.SuppPubInfo_arityBad] at h
+    by_cases h2 : a.length = 2
+    · obtain ⟨x0, x1, rfl⟩ := list_len2 a h2
+      simp only [List.length_cons, List.length_nil, Gen.SuppPubInfo_removes, List.getD_cons_zero, List.getD_cons_succ] at h
+      simp only [show ((2 : Nat) != 2 && (2 : Nat) != 3) = false from rfl, Bool.false_eq_true, if_false, show ((2 : Nat) == 3) = false from rfl] at h
+      exact tail x0 x1 none p h
+    · by_cases h3 : a.length = 3
+      · obtain ⟨x0, x1, x2, rfl⟩ := list_len3 a h3
+        simp only [List.length_cons, List.length_nil, Gen.SuppPubInfo_removes, List.getD_cons_zero, List.getD_cons_succ] at h
+        simp only [show ((3 : Nat) != 2 && (3 : Nat) != 3) = false from rfl, Bool.false_eq_true, if_false, show ((3 : Nat) == 3) = true from rfl, if_true] at h
+        simp only [vremove, List.getElem?_cons_succ, List.getElem?_cons_zero, List.eraseIdx_cons_succ, List.eraseIdx_cons_zero] at h
+        cases hb : tryAsBytes x2 with
+        | ok o =>
+          simp only [hb] at h
+          have := tail x0 x1 (some o) p
+          simp only [vremove, List.getElem?_cons_succ, List.getElem?_cons_zero, List.eraseIdx_cons_succ, List.eraseIdx_cons_zero] at this
+          exact this h
+        | err e => simp [hb] at h
+        | panic q => exact tryAsBytes_NP x2 q hb
+      · have : (a.length != 2 && a.length != 3) = true := by simp [h2, h3]
+        simp [this] at h
+  | _ => simp [SuppPubInfo.fromValue, tryAsArray, typeError] at h
+
+/-- the `for i in (4..a.len()).rev()` loop: every `remove(i)` is in range and four elements remain. -/
+theorem kdfTail_ok_len : ∀ (k : Nat) (a : List Value) (acc : List Bytes), a.length = 4 + k →
+    (NP (kdfTail (List.range' 4 k).reverse a acc)) ∧ ∀ r a', kdfTail (List.range' 4 k).reverse a acc = .ok (r, a') → a'.length = 4 := by
+  intro k
+  induction k with
+  | zero =>
+    intro a acc hl
+    refine ⟨by simp [kdfTail]; exact NP_ok _, ?_⟩
+    intro r a' h
+    simp [kdfTail] at h
+    rw [← h.2]; simpa using hl
+  | succ k ih =>
+    intro a acc hl
+    have hr : (List.range' 4 (k + 1)).reverse = (4 + k) :: (List.range' 4 k).reverse := by
+      rw [List.range'_concat]; simp
+    rw [hr]
+    have hget : ∃ x, a[4 + k]? = some x := by
+      have : 4 + k < a.length := by omega
+      exact ⟨a[4 + k], List.getElem?_eq_getElem this⟩
+    obtain ⟨x, hx⟩ := hget
+    have hlen : (a.eraseIdx (4 + k)).length = 4 + k := by rw [List.length_eraseIdx]; simp [show 4 + k < a.length by omega]; omega
+    simp only [kdfTail, vremove, hx]
+    cases hb : tryAsBytes x with
+    | ok b =>
+      simp only []
+      exact ih (a.eraseIdx (4 + k)) (acc ++ [b]) hlen
+    | err e => exact ⟨NP_err _, fun r a' h => by simp at h⟩
+    | panic q => exact absurd hb (tryAsBytes_NP x q)
+
+theorem kdf_NP (v : Value) : NP (CoseKdfContext.fromValue v) := by
+  intro p h
+  cases v with
+  | array a =>
+    simp only [CoseKdfContext.fromValue, tryAsArray, Gen.CoseKdfContext_arityBad] at h
+    by_cases hl : a.length < 4
+    · simp [hl] at h
+    · simp only [hl, decide_false, Bool.false_eq_true, if_false] at h
+      obtain ⟨hnp, hlen⟩ := kdfTail_ok_len (a.length - 4) a [] (by omega)
+      cases ht : kdfTail (List.range' 4 (a.length - 4)).reverse a [] with
+      | ok t =>
+        obtain ⟨privRev, a'⟩ := t
+        simp only [ht] at h
+        have h4 := hlen privRev a' ht
+        obtain ⟨x0, x1, x2, x3, rfl⟩ := list_len4 a' h4
+        simp only [Gen.CoseKdfContext_removes, List.getD_cons_zero, List.getD_cons_succ, vremove, List.getElem?_cons_succ, List.getElem?_cons_zero,
+          List.eraseIdx_cons_succ, List.eraseIdx_cons_zero] at h
+        cases hs : SuppPubInfo.fromValue x3 with
+        | ok supp =>
+          simp only [hs] at h
+          cases hv : PartyInfo.fromValue x2 with
+          | ok pv =>
+            simp only [hv] at h
+            cases hu : PartyInfo.fromValue x1 with
+            | ok pu =>
+              simp only [hu] at h
+              cases ha : RegLabelPriv.fromValue Reg.algorithm x0 with
+              | ok alg => simp [ha] at h
+              | err e => simp [ha] at h
+              | panic q => exact RegLabelPriv_fromValue_NP _ x0 q ha
+            | err e => simp [hu] at h
+            | panic q => exact party_NP x1 q hu
+          | err e => simp [hv] at h
+          | panic q => exact party_NP x2 q hv
+        | err e => simp [hs] at h
+        | panic q => exact supp_NP x3 q hs
+      | err e => simp [ht] at h
+      | panic q => exact hnp q ht
+  | _ => simp [CoseKdfContext.fromValue, tryAsArray, typeError] at h
+
+end Coset
